@@ -459,6 +459,234 @@ theorem C03_holds_sound (ty : GType) (r : Raw) (out : R Geom) (h : holdsB ty r o
     | none => simp [hd] at h
     | some c => simp [hd] at h; simp [h]
 
+/-! ## Per-type acceptance in elementary terms (review additions)
+
+    `Spec` says "the coordinates of some admissible value of the class".  The statements below spell
+    that out per class without `Spec`, `dump`-existentials or `Admissible`, so that every rule of the
+    property's wording (time ≥ 0, frequency in [0, MAX], start ≤ end, two points per line, three per
+    ring, one member per multi-geometry, strictly forward lines) is visible as a theorem about
+    `validate` itself. -/
+
+/-- on coordinates that have the shape of the class, acceptance is admissibility -/
+theorem C03_accept_dump_iff (c : Geom) :
+    (∃ g, validate (GType.of c) (dump c) = .ok g) ↔ Admissible c := by
+  rw [C03_accept_iff]
+  constructor
+  · rintro ⟨c', h1, h2, h3⟩
+    have := C03_dump_injective c c' h1.symm h2
+    rw [this]; exact h3
+  · intro h; exact ⟨c, rfl, rfl, h⟩
+
+/-- "the coordinates have the shape the type requires": whatever is accepted decodes as a value of
+    the class (a number, a pair, four numbers, a list of pairs, …) -/
+theorem C03_shape_required (ty : GType) (r : Raw) (g : Geom) (h : validate ty r = .ok g) :
+    ∃ c, decode ty r = some c ∧ GType.of c = ty ∧ r = dump c := by
+  obtain ⟨c, h1, h2, _, _⟩ := (C03_result ty r g).1 h
+  exact ⟨c, (decode_some ty r c).2 ⟨h1, h2⟩, h1, h2⟩
+
+theorem C03_timestamp_iff (t : Rat) : (∃ g, validate .timeStamp (.num t) = .ok g) ↔ 0 ≤ t :=
+  C03_accept_dump_iff (.timeStamp t)
+
+/-- interval: start ≥ 0 and start ≤ end (hence end ≥ 0) -/
+theorem C03_interval_iff (s e : Rat) :
+    (∃ g, validate .timeInterval (.arr [.num s, .num e]) = .ok g) ↔ 0 ≤ s ∧ 0 ≤ e ∧ s ≤ e :=
+  C03_accept_dump_iff (.timeInterval s e)
+
+/-- box: both times ≥ 0, both frequencies in [0, MAX]; *no* order is required of the ends -/
+theorem C03_box_iff (s l e h : Rat) :
+    (∃ g, validate .boundingBox (.arr [.num s, .num l, .num e, .num h]) = .ok g) ↔
+      0 ≤ s ∧ (0 ≤ l ∧ l ≤ MAXF) ∧ 0 ≤ e ∧ (0 ≤ h ∧ h ≤ MAXF) :=
+  C03_accept_dump_iff (.boundingBox s l e h)
+
+/-- line string: at least two points, every point in range; no order is required -/
+theorem C03_linestring_iff (ps : List Pt) :
+    (∃ g, validate .lineString (encPts ps) = .ok g) ↔
+      2 ≤ ps.length ∧ ∀ p ∈ ps, 0 ≤ p.1 ∧ (0 ≤ p.2 ∧ p.2 ≤ MAXF) :=
+  C03_accept_dump_iff (.lineString ps)
+
+/-- multi-point: at least one point, every point in range -/
+theorem C03_multipoint_iff (ps : List Pt) :
+    (∃ g, validate .multiPoint (encPts ps) = .ok g) ↔
+      1 ≤ ps.length ∧ ∀ p ∈ ps, 0 ≤ p.1 ∧ (0 ≤ p.2 ∧ p.2 ≤ MAXF) :=
+  C03_accept_dump_iff (.multiPoint ps)
+
+/-- polygon: at least one ring, at least three points per ring, every point in range -/
+theorem C03_polygon_iff (rs : List (List Pt)) :
+    (∃ g, validate .polygon (encRings rs) = .ok g) ↔
+      1 ≤ rs.length ∧ ∀ ring ∈ rs, 3 ≤ ring.length ∧ ∀ p ∈ ring, 0 ≤ p.1 ∧ (0 ≤ p.2 ∧ p.2 ≤ MAXF) :=
+  C03_accept_dump_iff (.polygon rs)
+
+/-- multi-line string: at least one line; each line has at least two points, all in range, and its
+    first point is strictly earlier than its last -/
+theorem C03_multilinestring_iff (ls : List (List Pt)) :
+    (∃ g, validate .multiLineString (encRings ls) = .ok g) ↔
+      1 ≤ ls.length ∧ ∀ l ∈ ls, 2 ≤ l.length ∧ (∀ p ∈ l, 0 ≤ p.1 ∧ (0 ≤ p.2 ∧ p.2 ≤ MAXF)) ∧
+        ∃ p q, l.head? = some p ∧ l.getLast? = some q ∧ p.1 < q.1 :=
+  C03_accept_dump_iff (.multiLineString ls)
+
+/-- multi-polygon: at least one polygon, each with at least one ring of at least three points in
+    range -/
+theorem C03_multipolygon_iff (ps : List (List (List Pt))) :
+    (∃ g, validate .multiPolygon (encPolys ps) = .ok g) ↔
+      1 ≤ ps.length ∧ ∀ poly ∈ ps, 1 ≤ poly.length ∧
+        ∀ ring ∈ poly, 3 ≤ ring.length ∧ ∀ p ∈ ring, 0 ≤ p.1 ∧ (0 ≤ p.2 ∧ p.2 ≤ MAXF) :=
+  C03_accept_dump_iff (.multiPolygon ps)
+
+/-! ## `geom_type()`, the construction of `GEOMETRY_MAPPING`, and the `Geometry` union (review
+    additions): the construction path of every model that *holds* a geometry -/
+
+theorem C03_membersOkB_sound (members : List Cls) (h : membersOkB members = true) :
+    MembersOk members := membersOkB_sound members h
+
+/-- `{geom.geom_type(): geom for geom in ALL_GEOMETRY_TYPES}` is a well-formed table whenever the
+    listed classes are the nine classes (the table obligation shows `membersOkB` of the extracted
+    list on every run) -/
+theorem C03_buildTable_wellFormed (classes : List Cls) (h : MembersOk classes) :
+    WellFormed (buildTable classes) := buildTable_wellFormed classes h
+
+/-- a tagged input can be accepted by at most one member of the union – the class named by the tag –
+    so the union's choice among successful members cannot matter -/
+theorem C03_union_unique (members : List Cls) (hm : MembersOk members) (c : Cls) (hc : c ∈ members)
+    (t : String) (r : Option Raw) (o : Obj)
+    (h : classValidate c false (.mapping (some t) r) = .ok o) : c.ty.tag = t ∧ o.1 = t := by
+  rw [hm.1 c hc] at h
+  cases r with
+  | none => rw [classValidate_ideal] at h; cases h
+  | some r =>
+    rw [member_outcome] at h
+    by_cases ht : c.ty.tag = t
+    · refine ⟨ht, ?_⟩
+      simp only [ht, if_true] at h
+      cases hv : validate c.ty r with
+      | error e => simp [hv, Except.map] at h
+      | ok g => simp [hv, Except.map] at h; rw [← h]
+    · simp [ht] at h
+
+/-- A tagged mapping validated against the `Geometry` union gives exactly what `validate` of the
+    class named by the tag gives (and a validation error for an unknown tag). -/
+theorem C03_union_eq (members : List Cls) (hm : MembersOk members) (t : String) (r : Raw) :
+    unionValidate members (.mapping (some t) (some r)) =
+      match GType.ofTag t with
+      | some ty => (validate ty r).map fun g => (t, g)
+      | none => .error .invalid := by
+  unfold unionValidate
+  cases ht : GType.ofTag t with
+  | none =>
+    simp only
+    have hall : ∀ x ∈ members.map (fun c => classValidate c false (.mapping (some t) (some r))),
+        x = (.error .invalid : R Obj) ∨ x = .error .invalid := by
+      intro x hx
+      obtain ⟨c, hc, rfl⟩ := List.mem_map.1 hx
+      rw [hm.1 c hc, member_outcome]
+      have : ¬ c.ty.tag = t := fun h => by
+        have := (ofTag_some t c.ty).2 h
+        rw [ht] at this; cases this
+      simp [this]
+    rcases pickUnion_spec (.error .invalid) (by simp) _ hall with h | ⟨h, _⟩ <;> exact h
+  | some ty =>
+    have htag := (ofTag_some t ty).1 ht
+    simp only
+    have hX : ((validate ty r).map fun g => (t, g) : R Obj) ≠ .error .crash := by
+      cases hv : validate ty r with
+      | ok g => simp [Except.map]
+      | error e => rw [(validate_spec ty r).2 e hv]; simp [Except.map]
+    apply pickUnion_of_mem _ hX
+    · intro x hx
+      obtain ⟨c, hc, rfl⟩ := List.mem_map.1 hx
+      rw [hm.1 c hc, member_outcome]
+      by_cases h : c.ty.tag = t
+      · have : c.ty = ty := tag_inj (h.trans htag.symm)
+        left; rw [this]; simp [htag]
+      · right; simp [h]
+    · refine List.mem_map.2 ⟨⟨ty, ty.tag, ty.tag⟩, hm.2 ty, ?_⟩
+      rw [member_outcome]; simp [htag]
+
+/-- the union path agrees with `geometry_validate` in dict mode (hence with all four entry points,
+    `C03_entrypoints_agree`): same object or a validation error in both -/
+theorem C03_union_agrees (tbl : Table) (hw : WellFormed tbl) (members : List Cls)
+    (hm : MembersOk members) (t : String) (r : Raw) :
+    unionValidate members (.mapping (some t) (some r)) =
+      geometryValidate tbl .dict (.val (.dict (some t) (some r))) := by
+  rw [C03_union_eq members hm, C03_geometryValidate_eq tbl hw]
+  simp only [view]
+
+/-- without coordinates, from an attribute object, or from a value that is not a mapping, the union
+    fails with a validation error (python mode does not read attributes) -/
+theorem C03_union_rejects (members : List Cls) (src : Source)
+    (h : ∀ t r, src ≠ .mapping t (some r)) : unionValidate members src = .error .invalid := by
+  unfold unionValidate
+  have hall : ∀ x ∈ members.map (fun c => classValidate c false src),
+      x = (.error .invalid : R Obj) ∨ x = .error .invalid := by
+    intro x hx
+    obtain ⟨c, _, rfl⟩ := List.mem_map.1 hx
+    left
+    rcases src with ⟨t, _ | r⟩ | ⟨t, r⟩ | _
+    · rcases t with _ | s
+      · simp [classValidate, classValidate.fields, bad]
+      · by_cases hs : s = c.literal <;> simp [classValidate, classValidate.fields, bad, hs]
+    · exact absurd rfl (h t r)
+    · simp [classValidate, bad]
+    · simp [classValidate, bad]
+  rcases pickUnion_spec (.error .invalid) (by simp) _ hall with h | ⟨h, _⟩ <;> exact h
+
+/-- every object that comes out of the union path is valid, in normal form and of the class named
+    by its tag -/
+theorem C03_union_valid (members : List Cls) (hm : MembersOk members) (t : String) (r : Raw)
+    (t' : String) (g : Geom) (h : unionValidate members (.mapping (some t) (some r)) = .ok (t', g)) :
+    t' = t ∧ g.tag = t ∧ (GType.of g).tag = t ∧ Valid g := by
+  have hw := C03_table_wellFormed
+  rw [C03_union_agrees table hw members hm] at h
+  have h1 := C03_class_of_tag table hw _ _ _ _ h
+  rw [C03_geometryValidate_eq table hw] at h
+  simp only [view] at h
+  cases ht : GType.ofTag t with
+  | none => simp [ht] at h
+  | some ty =>
+    simp only [ht] at h
+    cases hv : validate ty r with
+    | error e => simp [hv, Except.map] at h
+    | ok g' =>
+      simp only [hv, Except.map, Except.ok.injEq, Prod.mk.injEq] at h
+      obtain ⟨rfl, rfl⟩ := h
+      exact ⟨rfl, h1.1, h1.2.1, h1.2.2⟩
+
+/-! ## An existing geometry instance handed to `geometry_validate` (review addition; known finding
+    C03-2)
+
+    Full statement (what the property asks of the attributes mode, the instance being an attribute
+    object like any other):
+      `geometryValidateInstance tbl .attributes (cls, (t, g)) =
+         geometryValidate tbl .attributes (.attrs (some t) (some (dump g)))`
+    This is FALSE of the code: pydantic hands an instance of the requested class back without looking
+    at its fields (`C03_instance_passthrough`), so an instance whose `coordinates` were assigned
+    after construction (or that was built with `model_construct`) is "accepted" unvalidated and
+    un-normalised (the `example` below).  What holds is the statement restricted to instances that
+    are valid (`…_partial`). -/
+
+/-- the code as it is: an instance of the class named by its tag comes back unchanged, whatever its
+    coordinates are -/
+theorem C03_instance_passthrough (tbl : Table) (hw : WellFormed tbl) (ty : GType) (g : Geom) :
+    geometryValidateInstance tbl .attributes (⟨ty, ty.tag, ty.tag⟩, (ty.tag, g)) = .ok (ty.tag, g) := by
+  simp [geometryValidateInstance, hw.1 ty, classValidateInstance]
+
+/-- on *valid* instances the pass-through is what re-reading the attributes would give -/
+theorem C03_instance_revalidate_partial (tbl : Table) (hw : WellFormed tbl) (ty : GType) (g : Geom)
+    (ht : GType.of g = ty) (hv : Valid g) :
+    geometryValidateInstance tbl .attributes (⟨ty, ty.tag, ty.tag⟩, (ty.tag, g)) =
+      geometryValidate tbl .attributes (.attrs (some ty.tag) (some (dump g))) := by
+  rw [C03_instance_passthrough tbl hw]
+  have h := (C03_entrypoints_agree tbl hw ty (dump g)).2.2.2.2
+  rw [h]
+  have : validate ty (dump g) = .ok g :=
+    (C03_result _ _ _).2 ⟨g, ht, rfl, hv.1, (normalise_of_valid g hv).symm⟩
+  simp [this, Except.map]
+
+/-- an instance is neither JSON text nor a dict -/
+theorem C03_instance_wrong_mode (tbl : Table) (inst : Cls × Obj) :
+    geometryValidateInstance tbl .json inst = .error .invalid ∧
+    geometryValidateInstance tbl .dict inst = .error .invalid := by
+  simp [geometryValidateInstance, bad]
+
 /-! ## Non-vacuity: the statements above are about inputs that exist, on both sides -/
 
 -- accepted, with normalisation
@@ -509,5 +737,26 @@ example : construct ⟨.timeStamp, "TimeStamp", "TimeStamp"⟩ (some "Point") (s
 example : holdsB .boundingBox (.arr [.num 3, .num 5, .num 1, .num 2]) (.ok (.boundingBox 3 5 1 2)) = false := by
   decide +kernel
 example : holdsB .timeStamp (.num (-1)) (.ok (.timeStamp (-1))) = false := by decide +kernel
+
+-- review additions: the union path, the table construction, the instance pass-through
+example : membersOkB allClasses = true := by decide
+example : membersOkB (allClasses.drop 1) = false := by decide
+example : membersOkB (⟨.point, "Point", "MultiPoint"⟩ :: allClasses) = false := by decide
+example : wellFormedB (buildTable allClasses) = true := by decide
+example : unionValidate allClasses (.mapping (some "BoundingBox") (some (.arr [.num 3, .num 5, .num 1, .num 2])))
+    = .ok ("BoundingBox", .boundingBox 1 2 3 5) := by decide +kernel
+example : unionValidate allClasses (.mapping (some "Box") (some (.num 1))) = .error .invalid := by decide +kernel
+example : unionValidate allClasses (.object (some "TimeStamp") (some (.num 1))) = .error .invalid := by decide +kernel
+-- known finding C03-2: the instance route and the attribute route differ on an instance whose
+-- coordinates were assigned after construction
+example : geometryValidateInstance table .attributes
+      (⟨.boundingBox, "BoundingBox", "BoundingBox"⟩, ("BoundingBox", .boundingBox 5 0 1 (-1)))
+    = .ok ("BoundingBox", .boundingBox 5 0 1 (-1)) := by decide +kernel
+example : geometryValidate table .attributes
+      (.attrs (some "BoundingBox") (some (dump (.boundingBox 5 0 1 (-1))))) = .error .invalid := by decide +kernel
+example : Valid (.boundingBox 1 2 3 5) := by
+  unfold Valid Admissible Normal TimeOk FreqOk; decide +kernel
+example : validate .multiLineString (encRings [[(0, 1), (1, 1)]]) = .ok (.multiLineString [[(0, 1), (1, 1)]]) := by
+  decide +kernel
 
 end SE.Proofs.C03
